@@ -336,6 +336,7 @@ impl MasterPlaylistBuilder<'_> {
 
     fn validate_variants(&self, variant_streams: &[VariantStream<'_>]) -> crate::Result<()> {
         let mut closed_captions_none = false;
+        let mut closed_captions_group = false;
 
         for variant in variant_streams {
             match &variant {
@@ -374,11 +375,15 @@ impl MasterPlaylistBuilder<'_> {
                                 if !self.check_media_group(MediaType::ClosedCaptions, group_id) {
                                     return Err(Error::unmatched_group(group_id));
                                 }
+
+                                closed_captions_group = true;
                             }
                             _ => {
-                                if !closed_captions_none {
-                                    closed_captions_none = true;
+                                if closed_captions_group {
+                                    return Err(Error::custom("ClosedCaptions has to be `None`"));
                                 }
+
+                                closed_captions_none = true;
                             }
                         }
                     }
